@@ -133,6 +133,95 @@ fn on_noise(r: Receiver<Noise>, s: Sender<()>) {
     std::hint::black_box(junk);
 }
 
+
+// -- small payloads and events of mixed alignment (1, 2, 4, 8, 16): what a handler allocated must stay intact while
+// events of other layouts are sent, delivered and released around it
+#[derive(GlobalEvent)]
+struct Kick2 {
+    tag: u64,
+}
+#[derive(GlobalEvent)]
+struct M4 {
+    a: u32,
+    b: u32,
+}
+#[derive(GlobalEvent)]
+struct M1(u8);
+#[derive(GlobalEvent)]
+struct M2(u16, u16, u16);
+#[derive(GlobalEvent)]
+struct W8(u64);
+#[derive(GlobalEvent)]
+struct W16(u128);
+#[derive(GlobalEvent)]
+struct Carrier<'a> {
+    tag: u64,
+    d32: &'a [u32],
+    d8: &'a [u8],
+    d16: &'a [u16],
+}
+fn verify_mixed(who: &str, c: &Carrier) {
+    READS.with(|r| *r.borrow_mut() += 1);
+    let t = c.tag;
+    let ok = c.d32.iter().enumerate().all(|(i, &x)| x == pattern(t, i) as u32)
+        && c.d8.iter().enumerate().all(|(i, &x)| x == pattern(t + 1, i) as u8)
+        && c.d16.iter().enumerate().all(|(i, &x)| x == pattern(t + 2, i) as u16);
+    if !ok {
+        ERRORS.with(|e| e.borrow_mut().push(format!("{who}: mixed-alignment payload tag={t} corrupted: {:x?} {:x?} {:x?}", c.d32, c.d8, c.d16)));
+    }
+}
+fn on_kick2(r: Receiver<Kick2>, s: Sender<(M4, M1, M2, Carrier)>) {
+    let t = r.event.tag;
+    if t % 11 == 0 {
+        s.send(M1(1)); // shifts the alignment phase of what follows
+    }
+    let d32: &[u32] = s.alloc_slice(1 + (t % 5) as usize, |i| pattern(t, i) as u32);
+    if t % 2 == 0 {
+        s.send(M4 { a: t as u32, b: 1 });
+    }
+    let d8: &[u8] = s.alloc_slice(1 + (t % 7) as usize, |i| pattern(t + 1, i) as u8);
+    if t % 3 == 0 {
+        s.send(M1(t as u8));
+    }
+    let d16: &[u16] = s.alloc_slice(1 + (t % 3) as usize, |i| pattern(t + 2, i) as u16);
+    match t % 4 {
+        0 => s.send(M4 { a: 7, b: t as u32 }),
+        1 => s.send(M2(1, 2, 3)),
+        2 => s.send(M1(9)),
+        _ => {}
+    }
+    s.send(Carrier { tag: t, d32, d8, d16 });
+}
+fn on_carrier_first(r: Receiver<Carrier>, s: Sender<(W8, W16, M4, M2)>) {
+    verify_mixed("first carrier receiver", r.event);
+    match r.event.tag % 6 {
+        0 => s.send(W8(u64::MAX)),
+        1 => s.send(W16(u128::MAX)),
+        2 => {
+            s.send(M2(0xFFFF, 0xFFFF, 0xFFFF));
+            s.send(W8(u64::MAX));
+        }
+        3 => {
+            std::hint::black_box(s.alloc(u128::MAX));
+        }
+        4 => {
+            s.send(M4 { a: u32::MAX, b: u32::MAX });
+            s.send(W16(u128::MAX));
+        }
+        _ => {
+            std::hint::black_box(s.alloc_slice(3, |_| u64::MAX));
+        }
+    }
+}
+fn on_carrier_second(r: Receiver<Carrier>) {
+    verify_mixed("second carrier receiver", r.event);
+}
+fn on_w8(r: Receiver<W8>, s: Sender<W16>) {
+    if r.event.0 == u64::MAX {
+        s.send(W16(1));
+    }
+}
+
 struct Rng(u64);
 impl Rng {
     fn next(&mut self) -> u64 {
@@ -155,6 +244,10 @@ fn main() {
     world.add_handler(on_bigt);
     world.add_handler(on_noise);
     world.add_handler(on_despawn);
+    world.add_handler(on_kick2);
+    world.add_handler(on_carrier_first);
+    world.add_handler(on_carrier_second);
+    world.add_handler(on_w8);
     for _ in 0..3 {
         world.spawn();
     }
@@ -186,6 +279,14 @@ fn main() {
                 reset_errors.push(format!("round {round}: a handler ran after an arena reset inside the same top-level send (len={len} fanout={fanout} depth={depth})"));
             }
         });
+        {
+            let before = evenio::verif::bump_resets();
+            world.send(Kick2 { tag: rng.next() % 4096 });
+            sends += 1;
+            if evenio::verif::bump_resets() != before + 1 {
+                reset_errors.push(format!("round {round}: arena resets during the mixed-alignment send != 1"));
+            }
+        }
         if round % 5 == 4 {
             // a flush that starts with several queued events: removing a component type held by 2..5 entities
             let n = 2 + (rng.next() % 4);
